@@ -3,6 +3,8 @@
                                                      the wrapper has released the C original)
             throw <class> L<live-block delta> m<%-escaped what()>
    The live-block delta (allocwrap.c) is taken after the returned object and the exception object are gone.
+   Crystal queries that the header offers twice — as a method of Crystal::Struct and as a free function of namespace
+   Crystal — are made through BOTH routes on every line:  <answer through the method> || <answer through the free function>.
    Built by ./check with clang++-14 -std=gnu++17, ASan+UBSan, against the library objects of the working tree. */
 #include "config.h"
 #include <cstdio>
@@ -41,6 +43,9 @@ static void pr_i(int v) { out += " " + std::to_string(v); }
 static void pr_s(const std::string &s) { out += " s" + esc(s); }
 static void pr_c(const std::complex<double> &c) { pr_d(c.real()); pr_d(c.imag()); }
 
+static std::string answer;      /* the answer of the last CALL */
+static bool hold = false;       /* true: CALL leaves its answer in `answer` instead of printing it (two-route lines) */
+static long armed = 0;          /* `!failalloc k` given on the previous line: a two-route line arms the same failure for its second route too */
 #define CALL(...) do { \
     out.clear(); long l0 = xv_live(); std::string ek, em; \
     try { __VA_ARGS__; } \
@@ -49,8 +54,9 @@ static void pr_c(const std::complex<double> &c) { pr_d(c.real()); pr_d(c.imag())
     catch (const std::runtime_error &x) { ek = "runtime_error"; em = x.what(); } \
     catch (const std::exception &x) { ek = std::string("other:") + typeid(x).name(); em = x.what(); } \
     xv_fail_after(0); long d = xv_live() - l0; \
-    if (ek.empty()) printf("ok%s L%ld\n", out.c_str(), d); \
-    else printf("throw %s L%ld m%s\n", ek.c_str(), d, esc(em).c_str()); \
+    if (ek.empty()) answer = "ok" + out + " L" + std::to_string(d); \
+    else answer = "throw " + ek + " L" + std::to_string(d) + " m" + esc(em); \
+    if (!hold) printf("%s\n", answer.c_str()); \
   } while (0)
 
 #include "cppdrv_gen.inc"
@@ -98,9 +104,12 @@ static int dispatch_hand(char **tok, int nt) {
     CALL(double f0 = 0; double fp = 0; double fpp = 0; int r = xrlpp::Crystal::Atomic_Factors(Z, E, q, df, &f0, &fp, &fpp); pr_i(r); if (r) { pr_d(f0); pr_d(fp); pr_d(fpp); }); return 1; }
   if (IS("Crystal_GetCrystalsList", 0)) { CALL(pr_list(xrlpp::Crystal::GetCrystalsList())); return 1; }
   if (IS("Crystal_GetCrystal", 1)) { std::string s = ps(tok[1]); CALL(auto c = xrlpp::Crystal::GetCrystal(s); pr_cs(c)); return 1; }
-  /* crystal queries, alternately through the method and through the free function of namespace Crystal */
-  static unsigned flip = 0; flip++;
-#define WITH_CS(m, f) { std::string s = ps(tok[1]); CALL(auto c = xrlpp::Crystal::GetCrystal(s); if (flip & 1) { m; } else { f; }); return 1; }
+  /* crystal queries: every line through the method AND through the free function of namespace Crystal (each on a fresh object) */
+#define WITH_CS(m, f) { std::string s = ps(tok[1]); hold = true; \
+    CALL(auto c = xrlpp::Crystal::GetCrystal(s); m); std::string a1 = answer; \
+    if (armed) xv_fail_after(armed); \
+    CALL(auto c = xrlpp::Crystal::GetCrystal(s); f); hold = false; \
+    printf("%s || %s\n", a1.c_str(), answer.c_str()); return 1; }
   if (IS("Bragg_angle", 5)) WITH_CS(pr_d(c.Bragg_angle(pd(tok[2]), atoi(tok[3]), atoi(tok[4]), atoi(tok[5]))),
                                     pr_d(xrlpp::Crystal::Bragg_angle(c, pd(tok[2]), atoi(tok[3]), atoi(tok[4]), atoi(tok[5]))))
   if (IS("Q_scattering_amplitude", 6)) WITH_CS(pr_d(c.Q_scattering_amplitude(pd(tok[2]), atoi(tok[3]), atoi(tok[4]), atoi(tok[5]), pd(tok[6]))),
@@ -120,10 +129,11 @@ static int dispatch_hand(char **tok, int nt) {
       std::unique_ptr<Struct> a(new Struct(xrlpp::Crystal::GetCrystal(s)));
       std::unique_ptr<Struct> k(new Struct(nn, a->a, a->b, a->c, a->alpha, a->beta, a->gamma, a->volume, a->atom)); a.reset();
       pr_cs(*k); pr_d(k->UnitCellVolume()); pr_d(k->dSpacing(atoi(tok[3]), atoi(tok[4]), atoi(tok[5])))); return 1; }
-  if (IS("StructAdd", 2)) { std::string s = ps(tok[1]); std::string nn = ps(tok[2]); CALL(
+  /* StructAdd: through the method; StructAddF: through the free function (the call changes the built-in array, so one line = one route) */
+  if (IS("StructAdd", 2) || IS("StructAddF", 2)) { std::string s = ps(tok[1]); std::string nn = ps(tok[2]); bool viaMethod = !strcmp(tok[0], "StructAdd"); CALL(
       std::unique_ptr<Struct> a(new Struct(xrlpp::Crystal::GetCrystal(s)));
       std::unique_ptr<Struct> k(new Struct(nn, a->a, a->b, a->c, a->alpha, a->beta, a->gamma, a->volume, a->atom)); a.reset();
-      pr_i((flip & 1) ? k->AddCrystal() : xrlpp::Crystal::AddCrystal(*k))); return 1; }
+      pr_i(viaMethod ? k->AddCrystal() : xrlpp::Crystal::AddCrystal(*k))); return 1; }
   if (IS("ProcessError", 2)) { int code = atoi(tok[1]); std::string m = ps(tok[2]); CALL(
       xrl_error *er = nullptr;
       if (code >= 0) { er = (xrl_error *)xrl_malloc(sizeof(xrl_error)); er->code = (xrl_error_code)code; er->message = xrl_strdup(m.c_str()); }
@@ -131,7 +141,8 @@ static int dispatch_hand(char **tok, int nt) {
   if (!strcmp(tok[0], "Hist")) {
     /* Hist <n> <name_0> … <name_{n-1}> <m> <formula_0> … <op>*  : a history of the ownership model (Hand/Struct.lean) on real objects.
        g<c> GetCrystal(name_c); n<c> public constructor from the fields of name_c; c<i> copy; d<i> destroy; k<i> method call
-       (UnitCellVolume through `cs`); p<c> CompoundParser(formula_c); r<i> read the value members.
+       (UnitCellVolume through `cs`); f<i> method call that walks the atom array of `cs` (real part of
+       F_H_StructureFactor(8 keV, 111, 1, 1)); p<c> CompoundParser(formula_c); r<i> read the value members.
        Events: u, s (no such live object), v<bits of the observed number>; then L<live C blocks>, then Z<live after all destroyed>. */
     int n = atoi(tok[1]); std::vector<std::string> names, forms;
     for (int i = 0; i < n; i++) names.push_back(ps(tok[2 + i]));
@@ -176,6 +187,8 @@ static int dispatch_hand(char **tok, int nt) {
                       out += " u"; break;
             case 'k': if (!live(x)) { out += " s"; break; }
                       out += " v"; if (objs[x].first == 0) pr_d(cs[objs[x].second]->UnitCellVolume()); else pr_d(pods[objs[x].second]->molarMass); break;
+            case 'f': if (!live(x)) { out += " s"; break; }
+                      out += " v"; if (objs[x].first == 0) pr_d(cs[objs[x].second]->F_H_StructureFactor(8.0, 1, 1, 1, 1.0, 1.0).real()); else pr_d(pods[objs[x].second]->molarMass); break;
             case 'p': pods.emplace_back(new xrlpp::compoundData(xrlpp::CompoundParser(forms.at(x)))); objs.push_back({1, pods.size() - 1}); out += " u"; break;
             case 'r': if (!live(x)) { out += " s"; break; }
                       out += " v"; if (objs[x].first == 0) pr_d(cs[objs[x].second]->volume); else pr_d(pods[objs[x].second]->molarMass); break;
@@ -188,7 +201,7 @@ static int dispatch_hand(char **tok, int nt) {
     if (ek.empty()) printf("ok%s Z%ld\n", out.c_str(), xv_live() - l0); else printf("throw in-history m%s\n", esc(ek).c_str());
     return 1;
   }
-  if (!strcmp(tok[0], "!failalloc") && nt == 2) { xv_fail_after(atol(tok[1])); printf("set\n"); return 1; }
+  if (!strcmp(tok[0], "!failalloc") && nt == 2) { armed = atol(tok[1]); xv_fail_after(armed); printf("set\n"); return 1; }
   return 0;
 }
 
@@ -202,7 +215,9 @@ int main(void) {
     int nt = 0;
     for (char *p = strtok(line, " \n"); p && nt < 256; p = strtok(NULL, " \n")) tok[nt++] = p;
     if (nt == 0) continue;
+    bool arming = !strcmp(tok[0], "!failalloc");
     if (!dispatch_gen(tok, nt) && !dispatch_hand(tok, nt)) printf("bad-op\n");
+    if (!arming) armed = 0;
     fflush(stdout);
   }
   return 0;
